@@ -53,7 +53,7 @@ func shape(t *rapid.T, name string, o Opts) [3]int {
 	kinds := []string{"small-cubic", "small-cubic", "small-any", "small-any", "small-any"}
 	if o.Big {
 		kinds = append(kinds, "any8")
-		if rapid.IntRange(0, 9).Draw(t, name+"-rare") == 0 {
+		if rapid.IntRange(0, 9).Draw(t, name+"-rare") == 9 {
 			kinds = []string{"cubic8", "elongated", "any8"}
 		}
 	}
